@@ -316,6 +316,8 @@ fn structured(ctx: &mut Ctx, rng: &mut Rng, rounds: usize) {
         // YAML scalars with no JSON counterpart, extreme numbers, every core-schema spelling
         "a: .nan", "a: .inf", "a: -.inf", "a: .NaN", "a: +.INF", "- .nan", "!sd a: .inf", "a:\n  b: [.nan, !sd x]", "a: 1e400", "a: -1e400", "a: 1e-400", "a: 0x7FFFFFFFFFFFFFFFF",
         "a: 0o777", "a: 0b101", "a: 1_000", "a: 12:30:45", "a: 2001-12-14t21:59:43.10-05:00", "a: !!float 1", "a: !!int x", "a: !!null x", "a: !!bool maybe", "a: !!str", "a: !!map {}", "a: !!seq {}",
+        // document markers, several documents, and markers together with a syntax error
+        "---\n...\nnationalities: [US, DE", "---\na: [", "a: 1\n---\nb: 2", "---\n---\n", "...", "---\n...\n", "--- !sd\n- a\n- b\n", "---\n...\n...\n---\n[", "a: &x [*x", "? \n: \n? ", "---\n\ta: 1",
         "a: 18446744073709551616", "a: -9223372036854775809", "a: 0.1e+99999999999", "? .nan\n: 1", ".nan: 1", ".inf: 1", "1.5: a", "true: a", "[a]: b", "{a: 1}: b",
     ];
     for s in junk {
